@@ -89,8 +89,27 @@ fn parse_op(s: &str) -> Option<AOp> {
     if s == "n" {
         return Some(AOp::Plain);
     }
+    if !s.is_char_boundary(1) {
+        return None;
+    }
     let (k, rest) = s.split_at(1);
     Some(match k {
+        "E" => {
+            // `E<k>_<op>`: the operation nested in k DW_OP_entry_value operations
+            let (n, op) = rest.split_once('_')?;
+            let n: usize = n.parse().ok()?;
+            if n == 0 || n > 512 {
+                return None;
+            }
+            let mut inner = parse_op(op)?;
+            if matches!(inner, AOp::Entry(_)) {
+                return None;
+            }
+            for _ in 0..n {
+                inner = AOp::Entry(Box::new(inner));
+            }
+            inner
+        }
         "c" => AOp::Call(parse_tgt(rest)?),
         "C" => AOp::CallRef(parse_tgt(rest)?),
         "t" => AOp::Typed(parse_tgt(rest)?),
@@ -310,7 +329,87 @@ fn build_op(f: &Forest, b: &Built, me: &AEntry, op: &AOp, x: &mut Expression) ->
     Some(())
 }
 
+/// nesting beyond this is hand-encoded: `gimli::write` recurses once per nested expression when
+/// it sizes and writes (it is not under test here) and would overflow the worker's small stack
+const RAW_DEPTH: usize = 80;
+
+fn nest_depth(op: &AOp) -> usize {
+    let (mut d, mut o) = (0, op);
+    while let AOp::Entry(i) = o {
+        d += 1;
+        o = i;
+    }
+    d
+}
+
+fn expr_is_raw(ops: &[AOp]) -> bool {
+    ops.iter().any(|o| nest_depth(o) > RAW_DEPTH)
+}
+
+fn uleb(mut v: u64, out: &mut Vec<u8>) {
+    loop {
+        let b = (v & 0x7f) as u8;
+        v >>= 7;
+        if v == 0 {
+            out.push(b);
+            return;
+        }
+        out.push(b | 0x80);
+    }
+}
+
+/// bytes of one operation with every reference operand zero (all of them are patched afterwards)
+fn raw_encode_op(f: &Forest, b: &Built, me: &AEntry, op: &AOp) -> Option<Vec<u8>> {
+    let enc = f.enc;
+    let word = enc.format.word_size() as usize;
+    let (depth, mut inner) = (nest_depth(op), op);
+    while let AOp::Entry(i) = inner {
+        inner = i;
+    }
+    let mut bytes = match inner {
+        AOp::Plain => {
+            let mut v = vec![c::DW_OP_constu.0];
+            uleb((me.id as u64).wrapping_add(1) & 0xffff, &mut v);
+            v
+        }
+        AOp::Call(t) | AOp::Param(t) => {
+            tgt_entry(f, b, me, *t, true)?;
+            let mut v = vec![if matches!(inner, AOp::Call(_)) { c::DW_OP_call4.0 } else { c::DW_OP_GNU_parameter_ref.0 }];
+            v.extend([0u8; 4]);
+            v
+        }
+        AOp::CallRef(t) | AOp::VarVal(t) => {
+            tgt_entry(f, b, me, *t, false)?;
+            let mut v = vec![if matches!(inner, AOp::CallRef(_)) { c::DW_OP_call_ref.0 } else { c::DW_OP_GNU_variable_value.0 }];
+            v.extend(vec![0u8; word]);
+            v
+        }
+        AOp::ImplPtr(t) => {
+            tgt_entry(f, b, me, *t, false)?;
+            let mut v = vec![if enc.version >= 5 { c::DW_OP_implicit_pointer.0 } else { c::DW_OP_GNU_implicit_pointer.0 }];
+            v.extend(vec![0u8; ref_size_info(enc)]);
+            v.push(0); // byte_offset 0 (SLEB128)
+            v
+        }
+        AOp::Typed(_) | AOp::Entry(_) => return None,
+    };
+    for _ in 0..depth {
+        let mut v = vec![if enc.version >= 5 { c::DW_OP_entry_value.0 } else { c::DW_OP_GNU_entry_value.0 }];
+        uleb(bytes.len() as u64, &mut v);
+        v.extend(bytes);
+        bytes = v;
+    }
+    Some(bytes)
+}
+
 fn build_expr(f: &Forest, b: &Built, me: &AEntry, ops: &[AOp]) -> Option<Expression> {
+    if expr_is_raw(ops) {
+        let mut bytes = Vec::new();
+        for op in ops {
+            bytes.extend(raw_encode_op(f, b, me, op)?);
+        }
+        return Some(Expression::raw(bytes));
+    }
     let mut x = Expression::new();
     for op in ops {
         build_op(f, b, me, op, &mut x)?;
@@ -467,8 +566,8 @@ fn find_patches(f: &Forest, secs: &Secs) -> Result<Vec<(&'static str, usize, usi
     let needs = f.entries.iter().any(|e| {
         e.attrs.iter().any(|a| match a {
             AAttr::Ref(t) | AAttr::GRef(t) => matches!(t, Tgt::Oob | Tgt::Mid(_)),
-            AAttr::Expr(ops) => ops.iter().any(op_needs_patch),
-            AAttr::Loc(l) => l.iter().any(|(k, ops)| (*k == 'z' && f.enc.version <= 4) || ops.iter().any(op_needs_patch)),
+            AAttr::Expr(ops) => expr_is_raw(ops) || ops.iter().any(op_needs_patch),
+            AAttr::Loc(l) => l.iter().any(|(k, ops)| (*k == 'z' && f.enc.version <= 4) || expr_is_raw(ops) || ops.iter().any(op_needs_patch)),
         })
     });
     let d = secs.dwarf();
@@ -482,14 +581,17 @@ fn find_patches(f: &Forest, secs: &Secs) -> Result<Vec<(&'static str, usize, usi
         match t {
             Tgt::Oob => (units[me.unit].1 + units[me.unit].2 + 0x100) as u64,
             Tgt::Mid(i) => pos[i].1 as u64 + 1,
-            _ => 0,
+            // valid targets are patched only inside hand-encoded (raw) expressions
+            Tgt::Ent(i) => pos[i].1 as u64,
+            Tgt::Root(_) => units[me.unit].1 as u64,
         }
     };
     let sec_val = |t: Tgt| -> u64 {
         match t {
             Tgt::Oob => info_len as u64 + 0x100,
             Tgt::Mid(i) => pos[i].2 as u64 + 1,
-            _ => 0,
+            Tgt::Ent(i) => pos[i].2 as u64,
+            Tgt::Root(u) => (units[u].0 + units[u].1) as u64,
         }
     };
     let mut out = Vec::new();
@@ -529,7 +631,7 @@ fn find_patches(f: &Forest, secs: &Secs) -> Result<Vec<(&'static str, usize, usi
                     }
                     (AAttr::Expr(ops), read::AttributeValue::Exprloc(x)) => {
                         let p = x.0.offset_from(info);
-                        patch_expr(m, ops, x, p, enc, ".debug_info", &unit_val, &sec_val, &mut out)?;
+                        patch_expr(m, ops, x, p, enc, ".debug_info", &unit_val, &sec_val, expr_is_raw(ops), &mut out)?;
                     }
                     (AAttr::Loc(locs), read::AttributeValue::LocationListsRef(off)) => {
                         let (sname, sid) = if enc.version >= 5 { (".debug_loclists", SectionId::DebugLocLists) } else { (".debug_loc", SectionId::DebugLoc) };
@@ -549,7 +651,7 @@ fn find_patches(f: &Forest, secs: &Secs) -> Result<Vec<(&'static str, usize, usi
                                 let (b, _) = loc_range('z', k, enc.address_size, enc.version);
                                 out.push((sname, p - 2 - asz, asz, b));
                             }
-                            patch_expr(m, ops, data, p, enc, sname, &unit_val, &sec_val, &mut out)?;
+                            patch_expr(m, ops, data, p, enc, sname, &unit_val, &sec_val, expr_is_raw(ops), &mut out)?;
                             k += 1;
                         }
                         if k != locs.len() {
@@ -582,6 +684,7 @@ fn patch_expr(
     sec: &'static str,
     unit_val: &dyn Fn(&AEntry, Tgt) -> u64,
     sec_val: &dyn Fn(Tgt) -> u64,
+    raw: bool,
     out: &mut Vec<(&'static str, usize, usize, u64)>,
 ) -> Result<(), String> {
     let mut it = x.clone().operations(enc);
@@ -591,16 +694,16 @@ fn patch_expr(
         let Some(op) = it.next().map_err(|e| format!("input-expr-{}", rerr(&e)))? else { break };
         let Some(a) = ops.get(k) else { return Err("input-expr-count".into()) };
         k += 1;
-        let bad = |t: &Tgt| matches!(t, Tgt::Oob | Tgt::Mid(_));
+        let bad = |t: &Tgt| raw || matches!(t, Tgt::Oob | Tgt::Mid(_));
         match a {
             AOp::Call(t) | AOp::Param(t) if bad(t) => out.push((sec, xpos + at + 1, 4, unit_val(me, *t))),
             AOp::CallRef(t) | AOp::VarVal(t) if bad(t) => out.push((sec, xpos + at + 1, enc.format.word_size() as usize, sec_val(*t))),
             AOp::ImplPtr(t) if bad(t) => out.push((sec, xpos + at + 1, ref_size_info(enc), sec_val(*t))),
             AOp::Typed(t) if bad(t) => return Err("unsupported-typed-target".into()),
-            AOp::Entry(inner) if op_needs_patch(inner) => {
+            AOp::Entry(inner) if raw || op_needs_patch(inner) => {
                 let read::Operation::EntryValue { expression } = op else { return Err("input-expr-class".into()) };
                 let p = xpos + expression.offset_from(x.0);
-                patch_expr(me, std::slice::from_ref(inner), read::Expression(expression), p, enc, sec, unit_val, sec_val, out)?;
+                patch_expr(me, std::slice::from_ref(inner), read::Expression(expression), p, enc, sec, unit_val, sec_val, raw, out)?;
             }
             _ => {}
         }
@@ -1309,8 +1412,21 @@ fn gen_forest(rng: &mut Rng, n: usize, nunits: usize, st: Style) -> Vec<GEntry> 
                     if o == "NEST" {
                         o = "en".into();
                     }
+                    // nesting around MAX_ENTRY_VALUE_DEPTH (fix 8679173)
+                    if rng.chance(1, 4) {
+                        let k = *rng.pick(&[2usize, 3, 63, 64, 65, 66, 200]);
+                        o = format!("E{k}_{}", &o[1..]);
+                    }
                 }
                 v.push(o);
+            }
+            if v.iter().any(|o: &String| o.starts_with("E200_")) {
+                // hand-encoded expression: no ULEB128 operands
+                for o in v.iter_mut() {
+                    if o.starts_with('t') || o.starts_with("et") || (o.starts_with('E') && o.contains("_t")) {
+                        *o = "n".into();
+                    }
+                }
             }
             v.join(".")
         };
